@@ -67,7 +67,13 @@ make_randomable!(isize, usize);
 impl Randomable<f64> for Range<f64> {
     fn gen_from_u64(self, rng: u64) -> f64 {
         assert!(!self.is_empty());
-        let len = self.end - self.start;
-        (rng as f64 / u64::MAX as f64) * len + self.start
+        // 53 random bits give a value in [0, 1); rounding can still reach `end`, fall back to `start`
+        let unit = (rng >> 11) as f64 * (1.0 / (1u64 << 53) as f64);
+        let res = self.start * (1.0 - unit) + self.end * unit;
+        if res >= self.start && res < self.end {
+            res
+        } else {
+            self.start
+        }
     }
 }
